@@ -63,7 +63,7 @@ namespace
 
   struct Counters { uint64_t sync0_dofs = 0, shared_dofs = 0, three_way = 0, matvec_entries = 0, sol_entries = 0, iters = 0, levels = 0, transfer_entries = 0; } CNT;
 
-  struct RunCfg { wc::WorldCfg w; int solver = 0; int cycle = 0; int wait_order = 0; int splitter = 0; int trunc = 0; int shrink = 1; int moved_ticket = 0; };
+  struct RunCfg { wc::WorldCfg w; int solver = 0; int cycle = 0; int wait_order = 0; int splitter = 0; int trunc = 0; int shrink = 1; int moved_ticket = 0; int mesh_perm = 0; };
 
   // mass_op_: assemble the mass matrix / force functional instead of the Laplace problem (for spaces without gradients
   // across cells, e.g. discontinuous P0, whose gates have no neighbours at all)
@@ -121,6 +121,14 @@ namespace
           domain.use_explicit = true; domain.explicit_level = cfg.assign_level; domain.explicit_seed = cfg.assign_seed; domain.explicit_mode = cfg.adapt; break;
         }
         domain.set_desired_levels(String(cfg.levels));
+        // a legal configuration of the control (round 18): every level of every patch is renumbered after the partitioning;
+        // gates, mirrors, muxers and transfers are built on the renumbered meshes (all oracles compare by geometric DOF
+        // keys; the one-process reference stays unpermuted)
+        static const Geometry::PermutationStrategy ps[8] = {Geometry::PermutationStrategy::none, Geometry::PermutationStrategy::random,
+          Geometry::PermutationStrategy::lexicographic, Geometry::PermutationStrategy::colored, Geometry::PermutationStrategy::cuthill_mckee,
+          Geometry::PermutationStrategy::cuthill_mckee_reversed, Geometry::PermutationStrategy::geometric_cuthill_mckee,
+          Geometry::PermutationStrategy::geometric_cuthill_mckee_reversed};
+        if(rc.mesh_perm != 0) domain.set_permutation_strategy(ps[rc.mesh_perm]);
       }
       // the base splitter needs the unpartitioned base-mesh levels on rank 0 (single-layered hierarchies only: FEAT cannot keep base levels otherwise)
       const bool use_splitter = !reference && rc.splitter != 0 && cfg.layers == 1;
@@ -616,9 +624,9 @@ namespace
       for(const RankOut& r : A)
       {
         for(size_t d = 0; d < r.joined.size(); ++d)
-          if(!close(r.joined[d], g_val(r.base_keys[d], 5), 1e-14, std::abs(g_val(r.base_keys[d], 5)) + 1)) sim::fail("SPLITTER", "Splitter::join: base-mesh vector holds " + std::to_string(r.joined[d]) + " at a DOF whose distributed value is " + std::to_string(g_val(r.base_keys[d], 5)));
+          if(!close(r.joined[d], g_val(r.base_keys[d], 5), 1e-14, std::abs(g_val(r.base_keys[d], 5)) + 1)) sim::fail(rc.mesh_perm != 0 ? "SPLITTER_MESH_PERM" : "SPLITTER", "Splitter::join: base-mesh vector holds " + std::to_string(r.joined[d]) + " at a DOF whose distributed value is " + std::to_string(g_val(r.base_keys[d], 5)));
         for(size_t d = 0; d < r.split_out.size(); ++d)
-          if(r.split_out[d] != g_val(r.keys[d], 6)) sim::fail("SPLITTER", "Splitter::split: patch vector holds " + std::to_string(r.split_out[d]) + " where the base-mesh vector holds " + std::to_string(g_val(r.keys[d], 6)));
+          if(r.split_out[d] != g_val(r.keys[d], 6)) sim::fail(rc.mesh_perm != 0 ? "SPLITTER_MESH_PERM" : "SPLITTER", "Splitter::split: patch vector holds " + std::to_string(r.split_out[d]) + " where the base-mesh vector holds " + std::to_string(g_val(r.keys[d], 6)));
       }
       if(seen.size() != B.keys.size()) sim::fail("DOF_COVER", "the patches hold " + std::to_string(seen.size()) + " of " + std::to_string(B.keys.size()) + " global DOFs");
       CNT.iters += A[0].iters;
@@ -646,6 +654,12 @@ namespace
       rc.trunc = int(sim::cfg_int("transfer_trunc", 0, 1));
       rc.shrink = int(sim::cfg_int("transfer_shrink", 0, 1));
       rc.moved_ticket = int(sim::cfg_int("moved_ticket", 0, 1));
+      rc.mesh_perm = int(sim::cfg_weighted("mesh_perm", {9, 1, 1, 1, 1, 1, 1, 1}));
+      if(rc.mesh_perm != 0) sim::probe("world_with_mesh_permutation");
+      // known finding (KNOWN_FINDINGS.txt, DESIGN.md 13.2): the base splitter pairs the k-th entity of the root's patch part
+      // with the k-th local entity of the patch (identity mirror on the child), which no longer holds once the patch mesh has
+      // been renumbered. The combination is only run from the pinned trace, never met in the seed sweep.
+      if(rc.mesh_perm != 0 && sim::cfg_fixed("splitter_with_mesh_perm_known_finding", 0) != 1) rc.splitter = 0;
       Shared sh;
       SH = &sh;
       sh.a.resize(size_t(rc.w.n));
